@@ -189,6 +189,7 @@ func VerifC13_Retry(h *zz.H) {
 	tgt := &tpb.Target{Addresses: []string{"addr"}}
 	h.Assert(m.Add("t", tgt, &gpb.SubscribeRequest{}) == nil, "C13: a new target is added")
 	h.QuiesceAll() // maximal progress: every timer event within the bound has fired
+	h.Assert(!h.NegativeTimerDelay(), "C13: failed sessions are retried with backoff (the retry timer is never armed with a negative delay, i.e. the backoff never gives up)")
 	// at quiescence: either the script still has outcomes and no timer event is left, or a stream is silent
 	ta := m.targets["t"]
 	h.Assert(ta != nil, "C13: the target is still managed")
